@@ -248,7 +248,7 @@ def declarations():
 
     d('color:red', 'color', ['red'], (('color', 255, 0, 0, 1.0),))
     d('x:a', 'x', ['a'], (('ident', 'a'),))
-    d('top:-1.5px', 'top', ['-1.5', Word('px', esc=False)], (_num('-1.5', 'px'),))
+    d('top:-1.5px', 'top', ['-1.5', Word('px', simple=False)], (_num('-1.5', 'px'),))
     d('width:50%', 'width', ['50%'], (_num('50', '%'),))
     d('z-index:1', 'z-index', ['1'], (_num('1'),))
     d('content:"s"', 'content', [Str('s')], (('string', 's'),))
